@@ -14,8 +14,9 @@
    reader started at the offset where the call started:
      * a call that starts at a line start on a well-formed line returns exactly that record and stops after its LF;
      * a call that meets a malformed line (or starts inside one) returns an error -- how much of the malformed line it
-       consumes is left open, but it must make progress; a record is only ever accepted at a line start, so a record
-       made from the rest of a malformed line or from two lines is rejected;
+       consumes is left open, but it must make progress and must not read past the line feed that ends that line (a
+       malformed line costs only itself); a record is only ever accepted at a line start, so a record made from the
+       rest of a malformed line or from two lines is rejected;
      * no panic; the last call reports an error at the end of the text.
    Lower-case hex digits may be accepted or rejected (one choice per experiment).                                    *)
 EXTENDS MidicatLine, TLC, Json, IOUtils
@@ -45,7 +46,9 @@ JudgeLc(e, lfs, lc) ==
                            THEN start /\ x.kind = "rec" /\ r.ts = x.ts /\ r.b = x.b /\ r.pos = x.end
                          ELSE IF r.kind = "err"
                            THEN /\ ~(start /\ x.kind = "rec")
-                                /\ IF a.pos >= n THEN r.pos = a.pos ELSE r.pos > a.pos /\ r.pos <= n
+                                \* it makes progress and stays inside the malformed line: at most up to and including the
+                                \* line feed that ends it (x.end) -- a neighbouring line is never consumed with it
+                                /\ IF a.pos >= n THEN r.pos = a.pos ELSE r.pos > a.pos /\ r.pos <= x.end
                          ELSE FALSE
              IN [pos |-> r.pos, ok |-> good, call |-> a.call + 1, from |-> a.pos, start |-> start,
                  want |-> [kind |-> x.kind, ts |-> x.ts, nb |-> Len(x.b), first |-> Head8(x.b), end |-> x.end]]
